@@ -7,7 +7,7 @@ package main
 // "inner" part (stage, final, logs, serve) and files OUTSIDE of it; after every
 // request the whole tree is compared with the snapshot before it.
 //
-// line: H route srcsv keysv source key name prev renamed sep exists = status outside_changed changed
+// line: H route srcsv keysv source key name prev renamed sep exists = status outside_changed changed foreign_changed disclosed
 
 import (
 	"bytes"
@@ -199,8 +199,9 @@ func TestVerifHTTP(t *testing.T) {
 			req.Header.Set("X-STS-Sep", c.sep)
 		}
 		status := -1
+		var respBody []byte
 		if resp, err := client.Do(req); err == nil {
-			io.Copy(io.Discard, resp.Body)
+			respBody, _ = io.ReadAll(resp.Body)
 			resp.Body.Close()
 			status = resp.StatusCode
 		}
@@ -220,8 +221,40 @@ func TestVerifHTTP(t *testing.T) {
 		if len(changed) > 0 {
 			ch = 1
 		}
-		fmt.Fprintf(w, "H %s %d %d %s %s %s %s %s %s %d = %d %d %d\n", c.route, c.srcsv, c.keysv, gen.Hex(c.source), gen.Hex(c.key),
-			gen.Hex(c.name), gen.Hex(c.prev), gen.Hex(c.renamed), gen.Hex(c.sep), exists, status, outside, ch)
+		// the directories that BELONG to the source the request names: <stage|final|serve|logs/in>/<mangled source>
+		// - only when that is a proper single directory name
+		seg := strings.ReplaceAll(c.source, "/", "--")
+		properSeg := seg != "" && seg != "." && seg != ".." && !strings.ContainsAny(seg, "/\\\x00")
+		own := func(rel string) bool {
+			if !properSeg {
+				return false
+			}
+			for _, d := range []string{"stage", "final", "serve", filepath.Join("logs", "in")} {
+				if strings.HasPrefix(rel, filepath.Join(innerRel, d, seg)+"/") {
+					return true
+				}
+			}
+			return false
+		}
+		foreign := 0
+		for _, p := range changed {
+			if strings.HasPrefix(p, innerRel+"/") && !own(p) {
+				foreign = 1
+			}
+		}
+		// disclosure: the answer carries the content of a file that does not belong to that source
+		disclosed := 0
+		if status >= 200 && status < 300 {
+			for rel, content := range map[string]string{
+				filepath.Join(innerRel, "serve", "good", "file.txt"): "served", filepath.Join(innerRel, "serve", "good", "sub", "deep.txt"): "deep",
+				filepath.Join(innerRel, "serve", "other", "secret.txt"): "secret", "outside.txt": "outside", filepath.Join("mid", "sibling.txt"): "sibling"} {
+				if bytes.Contains(respBody, []byte(content)) && !own(rel) {
+					disclosed = 1
+				}
+			}
+		}
+		fmt.Fprintf(w, "H %s %d %d %s %s %s %s %s %s %d = %d %d %d %d %d\n", c.route, c.srcsv, c.keysv, gen.Hex(c.source), gen.Hex(c.key),
+			gen.Hex(c.name), gen.Hex(c.prev), gen.Hex(c.renamed), gen.Hex(c.sep), exists, status, outside, ch, foreign, disclosed)
 		// put back what a legitimate request removed / delivered, so that cases stay independent
 		if ch == 1 {
 			os.RemoveAll(filepath.Join(inner, "stage"))
